@@ -42,12 +42,32 @@ PROPS = {
 }
 
 
+# per-property configuration files tools/propcfg/CXX.py: `CFG = {"gens": [...], "rule": ..., "assumptions": [...], "trusted_base": [...]}`
+# and `def nontrivial(rec) -> bool` (rec = {"case":…, "impl":…, "model":…})
+import importlib.util, os
+_NT = {}
+_d = os.path.join(os.path.dirname(os.path.abspath(__file__)), "propcfg")
+for _f in sorted(os.listdir(_d)) if os.path.isdir(_d) else []:
+    if _f.endswith(".py"):
+        _spec = importlib.util.spec_from_file_location("propcfg_" + _f[:-3], os.path.join(_d, _f))
+        _m = importlib.util.module_from_spec(_spec)
+        _spec.loader.exec_module(_m)
+        PROPS[_f[:-3]] = _m.CFG
+        if hasattr(_m, "nontrivial"):
+            _NT[_f[:-3]] = _m.nontrivial
+
+
 def _outs(rec):
     o = rec["impl"].get("out")
     return o if isinstance(o, list) else []
 
 
 def nontrivial(prop, rec):
+    if prop in _NT:
+        try:
+            return bool(_NT[prop](rec))
+        except Exception:
+            return False
     feat = rec["impl"].get("feat") or {}
     ops = rec["case"].get("ops") or []
     outs = _outs(rec)
